@@ -188,6 +188,10 @@ type segCase struct {
 	// ReadFirst: before UpdateSidx every fragment is read once the way a caller without the init segment at hand
 	// does it (Fragment.GetFullSamples(nil), errors ignored): a read, after which the index must come out the same
 	ReadFirst bool `json:"readFirst,omitempty"`
+	// KeepMidEmsg: emsg boxes in front of the second and later fragments of a segment are NOT steered clear of (the
+	// library attaches them to the preceding fragment: recorded finding); the attachment is then left unjudged while
+	// re-encoding, grouping and the index are judged as always
+	KeepMidEmsg bool `json:"keepMidEmsg,omitempty"`
 	NoAvoid  bool `json:"noAvoid,omitempty"` // ignore avoidKnown (reproducers of known findings) ...
 	// ... or, when names are given, only these switches (a reproducer shows its own failure even if the same
 	// input also runs into another known finding earlier in the oracle)
@@ -1021,6 +1025,27 @@ func evalSegWith(c *segCase, st *stats, keepPrft bool) *harness.Fail {
 					key = "C12|" + dec + "|emsg in front of a moof not kept with its fragment|at a segment start, rule=" + rule
 				}
 			}
+			// with KeepMidEmsg: the same children apart from where the emsg boxes ended up?
+			sameButEmsg := func() bool {
+				var a, b []string
+				for _, ch := range x.fr.Children {
+					if ch.Type() != "emsg" {
+						a = append(a, fmt.Sprintf("%s+%d", ch.Type(), ch.Size()))
+					}
+				}
+				for _, w := range want {
+					if w.Type != "emsg" {
+						b = append(b, fmt.Sprintf("%s+%d", w.Type, w.Size))
+					}
+				}
+				return strings.Join(a, " ") == strings.Join(b, " ")
+			}
+			midNext := i+1 < len(lf) && !firstOfSeg[i+1] // the next fragment's emsg boxes land here
+			if c.KeepMidEmsg && (!firstOfSeg[i] || (midNext && nEmsgGot > nEmsgWant)) && sameButEmsg() && c.skip(st, "emsg-mid-segment-in-previous-fragment") {
+				// the recorded finding (the emsg is attached to the preceding fragment, behind its mdat): the attachment is
+				// not judged, everything else is: in particular the bytes must stay where they are on re-encoding
+				continue
+			}
 			return harness.Failf(key, "fragment %d (segment %d): Children %v, boxes of the fragment in the file %s; %s", i, x.seg, got, topTypes(want), describe())
 		}
 		if x.fr.StartPos != firstByte(i) {
@@ -1783,6 +1808,7 @@ func genCase(t *rapid.T) (segCase, string) {
 	c.NonZeroEPT = rapid.Bool().Draw(t, "nonZeroEPT")
 	c.Twice = rapid.Bool().Draw(t, "twice")
 	c.ReadFirst = rapid.IntRange(0, 2).Draw(t, "readFirst") == 0
+	c.KeepMidEmsg = rapid.IntRange(0, 3).Draw(t, "keepMidEmsg") == 0
 	if rapid.IntRange(0, 2).Draw(t, "dropLastSome") == 0 {
 		c.DropLast = rapid.IntRange(1, 3).Draw(t, "dropLast")
 	}
@@ -1917,7 +1943,8 @@ func steerClear(c *segCase) []string {
 		}
 		g := 0
 		eachFrag(func(si, fi int, fr *fragbuild.Frag) {
-			if !first[g] && dropPre(fr, func(i int, x *fragbuild.ExtraBox) bool { return attached(x) }) {
+			// with KeepMidEmsg the emsg boxes stay (their attachment is left unjudged by the oracle); prft boxes go
+			if !first[g] && dropPre(fr, func(i int, x *fragbuild.ExtraBox) bool { return attached(x) && !(c.KeepMidEmsg && isEmsg(x)) }) {
 				note("emsg-mid-segment-in-previous-fragment")
 			}
 			g++
